@@ -145,10 +145,11 @@ def run_shard(spec, acc):
         if claim_filtered:
             kwargs["exclude_pgns"] = [rng.choice([60928, "isoAddressClaim", "ISOADDRESSCLAIM"])]
         low = {n.lower() for n in names_listed}
-        shared = hist.claim_name(rng.randrange((1 << 21) - 3), rng.choice(MFRS))
+        sources = hist.pick_sources(rng, 4)
+        shared = hist.claim_name(hist.pick_unique_number(rng), rng.choice(MFRS))
         claims = {}
         for s in sources:
-            claims[s] = [hist.claim_name(rng.randrange((1 << 21) - 3), rng.choice(MFRS), inst_lo=rng.randrange(7), inst_hi=rng.randrange(30),
+            claims[s] = [hist.claim_name(hist.pick_unique_number(rng), rng.choice(MFRS), inst_lo=rng.randrange(7), inst_hi=rng.randrange(30),
                                          function=rng.choice([130, 140, 150]), dev_class=rng.choice([25, 60, 75]),
                                          sys_inst=rng.randrange(14), industry=rng.choice([4, 0, 1]), aac=rng.randrange(2))
                          for _ in range(2)] + ([shared] if s in (10, 20) else [])
